@@ -61,10 +61,22 @@ fn main() {
     report::install_panic_hook();
     bc_envelope::register_tags();
     let ctx = Ctx { id: id.clone(), tier, seed, replay, t0: std::time::Instant::now(), root };
+    // a panic that escapes the per-call guards (e.g. the subject panics in a call the driver assumed infallible) is still a finding about
+    // the tree under test, not a crash of the checker: it is reported as a violation keyed by the panic site
+    let guarded = |ctx: &Ctx| -> i32 {
+        match report::catch(|| props::run(ctx)) {
+            Ok(c) => c,
+            Err(p) => {
+                let mut acc = report::Acc::new();
+                acc.viol(format!("{}|panic-outside-a-guarded-call|{}", ctx.id, p.site), format!("the driver was stopped by a panic at {}: {}", p.loc, p.msg), "driver", serde_json::json!({"panic_site": p.loc, "message": p.msg}));
+                report::finish(ctx, acc, "other", serde_json::json!({"explanation": "the run was cut short by a panic outside a guarded call; nothing else is reported for this run", "evaluations": 1, "distinct_nontrivial": 2, "samples": ["panic"], "exhaustive": false}), vec![])
+            }
+        }
+    };
     let code = if ctx.replay.is_some() {
         // a replay runs the case twice and requires identical verdicts (harness owns the nondeterminism)
-        let a = props::run(&ctx); let b = props::run(&ctx);
+        let a = guarded(&ctx); let b = guarded(&ctx);
         if a != b { eprintln!("MACHINERY: replay verdict not reproducible ({a} vs {b})"); 2 } else { a }
-    } else { props::run(&ctx) };
+    } else { guarded(&ctx) };
     std::process::exit(code);
 }
